@@ -273,3 +273,21 @@ def c06():
 def c14():
     from . import heap_engine
     return heap_engine.c14()
+
+
+@prop("C09")
+def c09():
+    from . import opt_engine
+    return opt_engine.c09()
+
+
+@prop("C10")
+def c10():
+    from . import opt_engine
+    return opt_engine.c10()
+
+
+@prop("C15")
+def c15():
+    from . import opt_engine
+    return opt_engine.c15()
